@@ -14,13 +14,13 @@ ID = "C20"
 RULE = (
     "case = default TOML tree (tables nested up to 3 deep over a small key pool; scalar ints/floats/bools/strings with #, =, quotes, brackets, non-ASCII; "
     "one-line arrays) rendered by the harness's own writer with comment and blank lines, x a user tree derived from it (each key dropped/kept/changed incl. "
-    "scalar type changes, plus user-only keys and tables) x file exists | file absent; table sections may be written in any order (e.g. [server.tls], [ui], [server]) and leaf tables as one-line inline tables; the user may edit the file between two loads. Both texts are first checked with tomllib against the generated trees. "
+    "scalar type changes and, rarely, a table replaced by a plain value or a plain value by a (possibly empty) table, plus user-only keys and tables) x file exists | file absent; table sections may be written in any order (e.g. [server.tls], [ui], [server]) and leaf tables as one-line inline tables; the user may edit the file between two loads. Both texts are first checked with tomllib against the generated trees. "
     "Oracle: reference overlay on plain dicts (user wins at leaves, recurse on tables, keep both sides' private keys); file bytes unchanged when it existed; when absent: "
     "first load == defaults and creates a file, two further loads == defaults with file bytes unchanged, created file parses as TOML. "
     "Non-trivial = overlap at depth >= 2 with both a changed and an untouched sibling, or the absent-file path with a nested table."
 )
 ASSUMPTIONS = [
-    "no arrays of tables, multi-line values or table<->scalar conflicts (outside the property's stated domain / one-line proviso)",
+    "no arrays of tables or multi-line values (outside the property's stated domain / one-line proviso)",
     "tomllib (stdlib) is the second TOML reader validating the harness's writer",
     "tomlkit's parser is trusted: documents that tomlkit itself refuses to parse (some valid out-of-order table headers) are set aside and counted",
     "the config directory is redirected with XDG_CONFIG_HOME to a per-process scratch directory",
@@ -65,10 +65,13 @@ def _derive(draw, base, depth):
     u = {}
     for k, v in base.items():
         act = draw(st.integers(0, 3))
+        conflict = draw(st.integers(0, 11)) == 0  # the user turns a table into a plain value, or a plain value into a table
         if isinstance(v, dict):
             if act == 0:
                 continue
-            u[k] = draw(_derive(v, depth - 1))
+            u[k] = draw(_scalar()) if conflict else draw(_derive(v, depth - 1))
+        elif conflict and depth > 0:
+            u[k] = draw(st.one_of(st.just({}), _tree(0)))
         else:
             if act == 0:
                 continue  # dropped: default applies
